@@ -2906,28 +2906,38 @@ Proof.
              |apply r2e_hkp_modA; intros; apply r2e_numrel_rft].
 Qed.
 
-Lemma r2e_hkp_go : forall stop0 fuel idx any, r2e_hkp (ResetShrinkProofs.r_go stop0 fuel idx any).
+Lemma r2e_hkp_go_clock : forall clock fuel idx any, r2e_hkp (ResetShrinkProofs.r_go_clock clock fuel idx any).
 Proof.
-  intros stop0 fuel. induction fuel as [|f IH]; intros idx any; cbn [ResetShrinkProofs.r_go]; [apply r2e_hkp_ro, readonly_ret|].
+  intros clock fuel. induction fuel as [|f IH]; intros idx any; cbn [ResetShrinkProofs.r_go_clock]; [apply r2e_hkp_ro, readonly_ret|].
   apply r2e_hkp_bind; [apply r2e_hkp_ro, readonly_getT|]. intros t.
   apply r2e_hkp_getbind. intros s.
   assert (X : r2e_hkp (any1 <- ResetShrinkProofs.r_any1 idx any t s;;
-    (if (any1 && stop0)%bool then ret (idx, any1) else match f with 0 => ret (idx, any1) | S _ => ResetShrinkProofs.r_go stop0 f (S idx) any1 end))).
+    (if (any1 && clock idx)%bool then ret (idx, any1) else match f with 0 => ret (idx, any1) | S _ => ResetShrinkProofs.r_go_clock clock f (S idx) any1 end))).
   { apply r2e_hkp_bind; [apply r2e_hkp_any1|]. intros any1.
-    destruct (any1 && stop0)%bool; [apply r2e_hkp_ro, readonly_ret|]. destruct f; [apply r2e_hkp_ro, readonly_ret|apply IH]. }
+    destruct (any1 && clock idx)%bool; [apply r2e_hkp_ro, readonly_ret|]. destruct f; [apply r2e_hkp_ro, readonly_ret|apply IH]. }
   apply X.
 Qed.
 
-Lemma r2e_hkp_shrink_core : forall stop0, r2e_hkp (w_shrink_core stop0).
+Lemma r2e_hkp_go : forall stop0 fuel idx any, r2e_hkp (ResetShrinkProofs.r_go stop0 fuel idx any).
+Proof. intros stop0 fuel idx any. exact (r2e_hkp_go_clock (fun _ => stop0) fuel idx any). Qed.
+
+(** Shrink under every clock (every time budget) keeps the frame. *)
+Lemma r2e_hkp_shrink_clock : forall clock, r2e_hkp (w_shrink_clock clock).
 Proof.
-  intros stop0 s. rewrite ResetShrinkProofs.r_shrink_eq. pose proof (r2e_hkp_go stop0 (length (w_tables s)) 0 false s) as H.
-  destruct (ResetShrinkProofs.r_go stop0 (length (w_tables s)) 0 false s); exact H.
+  intros clock s. rewrite ResetShrinkProofs.r_shrink_eq_clock. pose proof (r2e_hkp_go_clock clock (length (w_tables s)) 0 false s) as H.
+  destruct (ResetShrinkProofs.r_go_clock clock (length (w_tables s)) 0 false s); exact H.
+Qed.
+
+Lemma r2e_hkp_shrink_core : forall stop0, r2e_hkp (w_shrink_core stop0).
+Proof. intros stop0. exact (r2e_hkp_shrink_clock (fun _ => stop0)). Qed.
+
+Lemma r2e_hkp_shrink_timed : forall clock, r2e_hkp (w_shrink_timed clock).
+Proof.
+  intros clock. unfold w_shrink_timed. apply r2e_hkp_bind; [apply r2e_hkp_ro, sc_ro_check_locked|]. intros _. apply r2e_hkp_shrink_clock.
 Qed.
 
 Lemma r2e_hkp_shrink : forall stop0, r2e_hkp (w_shrink stop0).
-Proof.
-  intros stop0. unfold w_shrink. apply r2e_hkp_bind; [apply r2e_hkp_ro, sc_ro_check_locked|]. intros _. apply r2e_hkp_shrink_core.
-Qed.
+Proof. intros stop0. exact (r2e_hkp_shrink_timed (fun _ => stop0)). Qed.
 
 Lemma r2e_hkp_write_cell : forall tid ci row v, r2e_hkp (write_cell tid ci row v).
 Proof. intros. unfold write_cell. r2e_hk_tac. apply r2e_hkp_modT. intros; reflexivity. Qed.
